@@ -17,7 +17,9 @@ pub fn cholesky(a: &[f64]) -> Vec<f64> {
             let s = dot(&l[(j * n)..(j * n + j)], &l[(i * n)..(i * n + j)]);
 
             if i == j {
-                l[i * n + j] = (a[i * n + i] - s).sqrt();
+                let d = a[i * n + i] - s;
+                assert!(d > 0., "matrix not positive definite");
+                l[i * n + j] = d.sqrt();
             } else {
                 l[i * n + j] = (a[i * n + j] - s) / l[j * n + j];
             }
